@@ -122,6 +122,9 @@ func c12Run(body []ast.Stmt) error {
 		at := int(f.Lasti)
 		verifAssert(at == len(f.Code.Code) || d.starts[at], "the instruction pointer stays on instruction boundaries")
 		verifAssert(len(f.Stack) <= int(f.Code.Stacksize), "the value stack never exceeds the declared stack size")
+		// the frame's stack is allocated with the declared size as its capacity: a push beyond it
+		// inside an instruction (exception unwinding, WITH_CLEANUP, ...) makes append reallocate
+		verifAssert(cap(f.Stack) <= int(f.Code.Stacksize) || int(f.Code.Stacksize) == 0, "the value stack never outgrows the declared stack size inside an instruction either")
 		if op == vm.RETURN_VALUE {
 			verifAssert(len(f.Stack) >= 1, "RETURN_VALUE finds its operand")
 		}
@@ -129,6 +132,7 @@ func c12Run(body []ast.Stmt) error {
 	defer restore()
 	frame := py.NewFrame(vm.VNewCtx(py.StringDict{}), globals, globals, c.Code, nil)
 	_, err = vm.RunFrame(frame)
+	verifAssert(cap(frame.Stack) <= int(c.Code.Stacksize) || c.Code.Stacksize == 0, "the value stack never outgrows the declared stack size inside an instruction either")
 	if err == nil {
 		verifAssert(len(frame.Blockstack) == 0, "a frame that returns normally leaves no block behind")
 		verifAssert(len(frame.Stack) == 0, "a frame that returns normally leaves no value behind")
@@ -161,6 +165,31 @@ func VerifC12ConformFlow() {
 	prog := []ast.Stmt{g.probe(), g.compound(kind, false, 1), g.probe()}
 	vm.VReset(2)
 	_ = c12Run(prog)
+}
+
+// the same statements with nothing else in their bodies (no probe calls): the
+// declared stack size then has no slack beyond what the statement's own
+// set-up, unwinding and clean-up need, at module level and as a function body
+//
+//verif:property C12
+//verif:runinit github.com/go-python/gpython/vm.init#2 github.com/go-python/gpython/py.init@type.go:1 github.com/go-python/gpython/vm.init@eval.go:1
+//verif:expect static
+//verif:maxpaths 30000 300000
+//verif:timeout 300 1500
+func VerifC12StackTight() {
+	kind := verifChoice("kind", 7)
+	hot := 1 + verifChoice("hot", 3)
+	g := &c02Gen{hot: hot, depth: verifBound(1, 2), tight: true}
+	g.hot2 = 1 + verifChoice("hot2", 3)
+	stmt := g.compound(kind, false, 1)
+	vm.VReset(2)
+	if verifChoice("where", 2) == 0 {
+		_ = c12Run([]ast.Stmt{stmt})
+		return
+	}
+	def := &ast.FunctionDef{Name: "f", Args: &ast.Arguments{}, Body: []ast.Stmt{stmt}}
+	call := &ast.ExprStmt{Value: &ast.Call{Func: c02Name("f")}}
+	_ = c12Run([]ast.Stmt{def, call})
 }
 
 // the same statements as the body of a function, with `return` as a further
